@@ -61,6 +61,7 @@ type Opts struct {
 	TailRec       bool    // include tail-recursive helpers with large depth
 	DeepRecursion int     // bound for non-tail recursion
 	ImportProb    float64 // probability that a statement is an import use (C12)
+	CallVia       string  // when set, calls of script functions are written CallVia(f, args...) (C14)
 }
 
 // Prog is a generated program.
@@ -98,7 +99,8 @@ type G struct {
 	mods       []string
 	modsrc     map[string]string
 	inFinally  int
-	noShadowAt int // scope depth at which declarations must use fresh names (try/catch/finally share one real scope)
+	noStrVars  bool // while generating the RHS of an assignment to a string variable (avoids s = s + s doubling)
+	noShadowAt int  // scope depth at which declarations must use fresh names (try/catch/finally share one real scope)
 }
 
 var shadowableBuiltins = []string{"int", "uint", "float", "char", "string", "bool", "bytes", "chars", "len", "contains",
@@ -437,6 +439,12 @@ func (g *G) genBool(d int) string {
 var strLits = []string{`""`, `"a"`, `"ab"`, `"xyz"`, `"hello"`, `"é"`, `"\xff"`, "`raw`"}
 
 func (g *G) genStr(d int) string {
+	if g.noStrVars {
+		if d <= 0 || g.chance(0.5) {
+			return strLits[g.pick(len(strLits))]
+		}
+		return "(" + g.genStr(d-1) + " + string(" + g.genInt(d-1) + "))"
+	}
 	if d <= 0 {
 		vs := g.visible(KStr, false)
 		if len(vs) > 0 && g.chance(0.5) {
@@ -563,7 +571,13 @@ func (g *G) callFn(f *gvar, d int) string {
 		head := args[:n-k]
 		tail := args[n-k:]
 		g.tag("call-spread")
+		if g.o.CallVia != "" {
+			return g.o.CallVia + "(" + strings.Join(append(append([]string{f.name}, head...), "...["+strings.Join(tail, ", ")+"]"), ", ") + ")"
+		}
 		return f.name + "(" + strings.Join(append(append([]string{}, head...), "...["+strings.Join(tail, ", ")+"]"), ", ") + ")"
+	}
+	if g.o.CallVia != "" {
+		return g.o.CallVia + "(" + strings.Join(append([]string{f.name}, args...), ", ") + ")"
 	}
 	return f.name + "(" + strings.Join(args, ", ") + ")"
 }
@@ -592,6 +606,16 @@ func (g *G) genStmt(o *out, depth int) {
 	if len(g.mods) > 0 && g.o.ImportProb > 0 && g.chance(g.o.ImportProb) {
 		g.genImportUse(o)
 		return
+	}
+	if g.o.CallVia != "" && g.chance(0.35) {
+		if fs := g.visible(KFn, false); len(fs) > 0 {
+			o.line(fmt.Sprintf("L(%d, %s)", g.lid(), g.callFn(fs[g.pick(len(fs))], ed-1)))
+			return
+		}
+		if depth > 0 {
+			g.genFuncDef(o, depth)
+			return
+		}
 	}
 	choice := g.pick(100)
 	switch {
@@ -657,7 +681,15 @@ func (g *G) genStmt(o *out, depth int) {
 			}
 		} else {
 			g.tag("assign")
-			o.line(v.name + " = " + g.genKind(k, ed))
+			if k == KStr {
+				g.noStrVars = true
+			}
+			rhs := g.genKind(k, ed)
+			g.noStrVars = false
+			if k == KStr && g.chance(0.3) {
+				rhs = "(" + v.name + " + \"x\")[0:1] + " + rhs
+			}
+			o.line(v.name + " = " + rhs)
 		}
 	case choice < 33: // index assignment
 		if g.chance(0.5) {
